@@ -64,7 +64,9 @@ func c17gate(p *Prog, r *Report) {
 	for _, h := range handlers {
 		handlerSet[h] = true
 	}
-	isStateVal := func(v ssa.Value) bool { return flowsFromCall(v, func(f *types.Func) bool { return f.Name() == "GetState" }, 0) }
+	isStateVal := func(v ssa.Value) bool {
+		return flowsFromCall(v, func(f *types.Func) bool { return f.Name() == "GetState" }, 0)
+	}
 	var names []string
 	for n := range states {
 		names = append(names, n)
